@@ -378,6 +378,7 @@ def run(run, tier):
             return
         run.violation(key, what, rp, no_input)
 
+    from . import c19_tables; c19_tables.check(run, tier, report)     # the translator's tables and statement mapping, checked on every run
     t0 = time.time()
     rc, msg, table = run_translator()
     if rc != 0:
